@@ -240,11 +240,22 @@ impl Env<'_> {
                 Some(c)
             }
             Err(e) => {
-                self.incon(if is_resource_err(&e) {
-                    "c17-connect-resource-error".into()
+                if matches!(
+                    e.kind(),
+                    std::io::ErrorKind::ConnectionRefused
+                        | std::io::ErrorKind::ConnectionReset
+                        | std::io::ErrorKind::NotConnected
+                ) && self.close_called()
+                {
+                    // close() raced ahead of this client: nothing to judge
+                    self.count(format!("{who}_connect_{:?}_after_close_call", e.kind()));
                 } else {
-                    format!("c17-{who}-connect-failed:{:?}", e.kind())
-                });
+                    self.incon(if is_resource_err(&e) {
+                        "c17-connect-resource-error".into()
+                    } else {
+                        format!("c17-{who}-connect-failed:{:?}", e.kind())
+                    });
+                }
                 None
             }
         }
@@ -274,7 +285,7 @@ fn stay_client(p: &Stay, env: &Env) -> Option<Outcome> {
     std::thread::sleep(Duration::from_micros(p.delay_us));
     let mut conn = env.connect("stay")?;
     if p.slow_reader {
-        small_rcvbuf(&conn);
+        small_rcvbuf(&conn, 128 << 10);
     }
     if let Some(w) = p.warm {
         env.open_gate(w);
@@ -809,7 +820,7 @@ pub fn run_case(out: &mut Out, seed: u64, shard: u64, case: u64, record: bool) -
             if record {
                 out.inter.insert(format!(
                     "{m}|{pop}|{}",
-                    ord.chars().filter(|c| "ECFXPZ".contains(*c)).collect::<String>()
+                    ord.chars().filter(|c| "ECFXPZdG".contains(*c)).collect::<String>()
                 ));
             }
             rep.eval(cls);
